@@ -275,6 +275,11 @@ def scenarios(variant, quick, alg='cmac'):
             ls.append(byte_lens[(i + n + k) % len(byte_lens)])
             k += 1
         out.append(dict(nbits=[8 * l for l in ls]))
+    # position of the strictly smallest lane (first, last, middle, middle+1), every other lane with more and different work
+    for j in sorted(set([0, nl - 1, nl // 2, min(nl - 1, nl // 2 + 1)])):
+        ls = [16 * (4 + (i % 3)) + (i % 2) * 5 for i in range(nl)]
+        ls[j] = 16 * 2 + 3
+        out.append(dict(nbits=[8 * l for l in ls] + [8 * 48]))
     if alg == 'cmac':
         out.append(dict(nbits=[3, 129, 127, 135, 77, 260, 8, 1], hoff=0))       # 3GPP bit lengths
     out.append(dict(nbits=[8 * 20, 8 * 7], hoff=5))
